@@ -106,7 +106,7 @@ def timed(fn, s, cap):
     t0 = time.process_time()
     PROGRESS[0] = 0
     try:
-        with shard.deadline(cap):
+        with shard.cpu_deadline(cap):
             r = fn(s)
             if isinstance(r, int):
                 PROGRESS[0] = r
@@ -122,15 +122,15 @@ def timed(fn, s, cap):
 def judge(fn, make):
     """-> None | (kind, detail, n)   kind in short-input / super-polynomial.  Re-measures before reporting."""
     # (a) no input of a few dozen characters may take seconds
-    for n in SHORT_N:
-        s = make(n)
-        if len(s) <= 64:
-            t = timed(fn, s, SHORT_LIMIT * 2)
-            if t is None or t > SHORT_LIMIT:
-                t2 = timed(fn, s, SHORT_LIMIT * 2)
-                if t2 is None or t2 > SHORT_LIMIT:
-                    return 'short-input', f'{len(s)} characters take more than {SHORT_LIMIT} s', n
-            break
+    unit = max(len(make(2)) - len(make(1)), 1)
+    n = max((64 - (len(make(1)) - unit)) // unit, 1)      # as many repetitions as fit into 64 characters
+    s = make(n)
+    if len(s) <= 64:
+        t = timed(fn, s, SHORT_LIMIT * 2)
+        if t is None or t > SHORT_LIMIT:
+            t2 = timed(fn, s, SHORT_LIMIT * 2)
+            if t2 is None or t2 > SHORT_LIMIT:
+                return 'short-input', f'{len(s)} characters take more than {SHORT_LIMIT} s', n
     # (b) growth on the doubling ladder; the largest rung decides whether anything needs measuring at all
     big = make(LADDER[-1])
     t = timed(fn, big, CAP)
@@ -154,7 +154,7 @@ def judge(fn, make):
             if prev is not None and prev < CAP / 64:
                 return 'super-polynomial', f't({LADDER[i - 1]})={prev:.4f}s then the {CAP}s cap at n={LADDER[i]}', LADDER[i]
             continue
-        if prev and cur > FLOOR and cur / max(prev, 1e-6) > 64:
+        if prev is not None and cur > FLOOR and cur / max(prev, 1e-4) > 64:
             return 'super-polynomial', f't({LADDER[i - 1]})={prev:.4f}s t({LADDER[i]})={cur:.4f}s ratio {cur / prev:.0f}', LADDER[i]
     return 'slow', f'times {times}', 0
 
